@@ -128,6 +128,22 @@ Theorem C03_source_substructure_loop : forall f size cur acc d,
 Proof. exact ReaderSrcFacts.subs_step_correct. Qed.
 Print Assumptions C03_source_substructure_loop.
 
+(* the fixed part of the SRC section itself: SRC.toJSON as translated, up to the statement that starts building the display (nothing
+   after it mentions the stream), reads the six header fields, `for i in range(8)` the hex words, and the 32-byte reference code:
+   for EVERY byte string that is the model's fixed reader, and parse_src is that reader followed by the word-count check and
+   the optional callout subsection *)
+Theorem C03_source_src_fixed : forall d,
+  match StreamProg.run Gen.Readers.prog_src_head (StreamProg.init d) with
+  | StreamProg.RFall s => ReaderSrcFacts.src_fixed d = Some (ReaderSrcFacts.src_fixed_of s, StreamProg.s_rest s)
+  | StreamProg.RErr => ReaderSrcFacts.src_fixed d = None
+  | _ => False
+  end.
+Proof. exact ReaderSrcFacts.src_head_correct. Qed.
+Print Assumptions C03_source_src_fixed.
+Theorem C03_src_is_fixed_then_rest : forall d, parse_src d = (x <- ReaderSrcFacts.src_fixed ;; ReaderSrcFacts.src_rest x) d.
+Proof. exact ReaderSrcFacts.parse_src_split. Qed.
+Print Assumptions C03_src_is_fixed_then_rest.
+
 (* a registry message, when one is defined for the reason code, is filled with the referenced hex words: the entry is the first
    one of the SRC's type whose reason code contains "0x" + characters 4..7 of the reference code; "SRCWordN" refers to hex word N;
    for messages whose placeholders are %1, %2, .. in this order the positional filling the code performs is the filling by number *)
